@@ -43,6 +43,14 @@ def run(ctx: Any, prog: Program) -> None:
     ctx.rule('C19.H2', 'walk_folder matches whole folder names (separator-terminated or empty prefix) on normalised operands', floor=6)
     ctx.rule('C19.H3', 'names listed by walk_folder are accepted by the lookup of the same backend', floor=3)
     ctx.rule('C19.H4', 'FileSystemChain: first hit wins in list order, priority inserts at the front, prefixes joined and stripped, de-duplicated walk', floor=6)
+    # per-object state that methods change in place must not be a class-level container shared by every instance (see engine.model)
+    from engine.model import shared_mutable_class_attrs as _smca
+    for _m in (fs,):
+        _hits = _smca(_m.tree, [c.name for c in _m.tree.body if isinstance(c, ast.ClassDef)])
+        for _cn, _attr, _st in _hits:
+            ctx.check('C19.H4', False, _m, _st, f'{_cn}.{_attr} is a class-level container (`{U(_st.value)[:30]}`) that methods change in place and no __init__ assigns: all {_cn} objects share it, so the members or indexes of one filesystem show up in another',
+                      func=_cn, text=f'{_cn}.{_attr} is per-object state')
+        ctx.check('C19.H4', True, _m, _m.tree, f'{len(_hits)} shared class-level containers in {_m.relpath}', func='<module>', text=f'{_m.relpath}: class-level containers examined')
 
     call_forms = {'_clean_path': frozenset({FOLDED, SLASHED, 'CLEAN'})}
     # _clean_path itself: normpath + slashes + casefold
